@@ -15,6 +15,15 @@ R2b spec->code: IteratorProto.tla prints every history of Next / Len / Reset / s
     collections of 0..3 items; EdgeValue.tla adds Weight / ReversedEdge and is replayed on the
     multi.Edge / multi.WeightedEdge values obtained from every query of the 4 multigraph types
     (default and safe builds).
+R2c spec->code: the wrapper views of package graph - graph.Undirect / graph.UndirectWeighted (every merge in
+    {nil = mean, min, max} x Absent in {0, 1, -3}, with a recording Merge) over every directed container and
+    graph.Complement over every container - are stated in GraphViews.tla over the states of GraphSet /
+    GraphDense / GraphMulti; TLC prints their answers for every reachable state (record kind "v") and the
+    harness visits every state once (reached by its shortest real history) and asks every method of every
+    view (replay argument views=1).  IteratorProto.tla has the operation Of (graph.NodesOf / EdgesOf /
+    WeightedEdgesOf / LinesOf / WeightedLinesOf at the iterator's current position); every history that
+    calls it is replayed on the 18 iterator types and graph.Empty, each plain, with the slice form hidden,
+    with an unknown (negative) Len, and on a nil iterator (replay argument of=1).
 R3  code->spec: seeded random histories of 10^3 calls over 64 ids (incl. extreme ids; dense: with the
     recorded constructor call) are logged from the real containers and validated by TLC against
     GraphSetTrace / GraphMultiTrace.
@@ -42,8 +51,20 @@ DENSE = [
     # absent = 2 (0 is an ordinary weight), self = absent among the self values
     ("und-dense3-abs2", "{0,1,2,3}", "FALSE", "{0,1,2}", 3, 2, "{2,7}", "{0}", UM, True),
     ("dir-dense2-abs2", "{0,1,2}", "TRUE", "{0,1,2}", 2, 2, "{2,7}", "{0,1}", DM, True),
+    # three nodes, one ordinary weight token beside absent = 2 (129 states): replayed under the NaN / Inf bindings below
+    ("dir-dense3-w2", "{0,1,2,3}", "TRUE", "{1,2}", 3, 2, "{2,7}", "{0}", DM, True),
     ("dir-dense3-id", "{0,1,2,3}", "TRUE", "{0,1}", 3, 0, "{0,7}", "{0,1}", DM, False),
     ("und-dense4", "{0,1,2,3,4}", "FALSE", "{0,1}", 4, 0, "{0,7}", "{0}", UM, False),
+]
+# dense families replayed again (tour and views) with weight tokens bound to special float values (replay argument
+# bind=token:nan|pinf|ninf): the absent token (which is also an init value and, in the abs2 / w2 families, a self
+# value) as NaN, +Inf, -Inf; a self token as NaN / +Inf beside an ordinary absent
+DENSE_BIND = [
+    # family, bind, quick?
+    ("dir-dense3-w2", "2:nan", True), ("dir-dense3-w2", "2:pinf", True), ("dir-dense3-w2", "2:ninf", True),
+    ("und-dense3-abs2", "2:nan", True), ("und-dense3-abs2", "2:pinf", True), ("und-dense3-abs2", "2:ninf", True),
+    ("dir-dense2-abs2", "2:nan,7:pinf", True), ("und-dense3-id", "7:nan", True),
+    ("dir-dense3-id", "0:nan", False), ("und-dense4", "0:nan,7:ninf", False), ("dir-dense3", "0:nan", False),
 ]
 MULTI = [
     ("mdir-2x2", "{0,1}", "{0,1}", "TRUE", "{1}", "multi.DirectedGraph,multi.WeightedDirectedGraph", True),
@@ -73,6 +94,7 @@ def run(ctx):
     W = 4 if thorough else 2          # TLC workers of an R1 run (several stages run side by side)
     depth = 8 if thorough else 6       # iterator histories
     edepth = 6 if thorough else 4      # edge value histories
+    ofdepth = 6 if thorough else 5     # iterator histories that call the XOf helpers
     have_store = os.path.exists(os.path.join(os.path.dirname(__file__), "..", "..", "specs", "graph", "GraphStore.tla"))
 
     # ---- phase 1: R1 design models and the R2 generators, side by side ----
@@ -98,14 +120,20 @@ def run(ctx):
     if have_store:
         r1("graph/GraphStore.tla", "graph/GraphStore.cfg", name="R1 GraphStore refines GraphSet",
            subst=dict(IDS="{0,1,2,3}" if thorough else "{0,1,2}"), coverage=True)
+    r1("graph/GraphSet.tla", "graph/GraphSet_model.cfg", name="R1 GraphSet undirected weighted 4 ids (views of an undirected graph)",
+       subst=dict(IDS="{0,1,2,3}", DIRECTED="FALSE", WEIGHTS="{1,2}", DENSEN=0, EMIT="FALSE"))
     r1("graph/IteratorProto.tla", "graph/IteratorProto.cfg", name="R1 iterator contract (TypeOK, LenLaw, Exhausted)",
-       subst=dict(MAXN=4, DEPTH=depth + 1, EMIT="FALSE"))
+       subst=dict(MAXN=4, DEPTH=depth + 1, EMIT="FALSE", WITHOF="FALSE"))
+    r1("graph/IteratorProto.tla", "graph/IteratorProto.cfg", name="R1 iterator contract with the XOf helpers (+ OfLaw), depth 7",
+       subst=dict(MAXN=4, DEPTH=7, EMIT="FALSE", WITHOF="TRUE"))
     r1("graph/EdgeValue.tla", "graph/EdgeValue.cfg", name="R1 edge value (iterator contract + WeightResets, OpenOnlyOffStart, RevKeeps)",
        subst=dict(MAXN=3, DEPTH=edepth + 2, EMIT="FALSE"))
     if thorough:
         r1("graph/GraphMulti.tla", "graph/GraphMulti_model.cfg", name="R1 GraphMulti directed 3 ids x 2 line ids",
            subst=dict(IDS="{0,1,2}", LIDS="{0,1}", DIRECTED="TRUE", WEIGHTS="{1}", EMIT="FALSE"))
-        r1("graph/GraphSet.tla", "graph/GraphSet_model.cfg", name="R1 GraphSet directed 4 ids, 2 weights",
+        # (GraphSet_big.cfg: GraphSet_model.cfg without ViewWeight, which costs ~1.5 ms of TLC time per state - every
+        # pair x merge x Absent - and is checked on every state of the 3-id two-weight model and of every generator model)
+        r1("graph/GraphSet.tla", "graph/GraphSet_big.cfg", name="R1 GraphSet directed 4 ids, 2 weights",
            subst=dict(IDS="{0,1,2,3}", DIRECTED="TRUE", WEIGHTS="{1,2}", DENSEN=0, EMIT="FALSE"), timeout=1500)
     for name, ids, d, w, types, quick in SIMPLE:
         if quick or thorough:
@@ -120,7 +148,9 @@ def run(ctx):
             gen(("multi", name), "graph/GraphMulti.tla", "graph/GraphMulti_model.cfg", name="R2 gen multi " + name,
                 subst=dict(IDS=ids, LIDS=lids, DIRECTED=d, WEIGHTS=w, EMIT="TRUE"))
     gen("iter", "graph/IteratorProto.tla", "graph/IteratorProto.cfg", name="R2 gen iterator histories depth %d" % depth,
-        subst=dict(MAXN=3, DEPTH=depth, EMIT="TRUE"))
+        subst=dict(MAXN=3, DEPTH=depth, EMIT="TRUE", WITHOF="FALSE"))
+    gen("iterof", "graph/IteratorProto.tla", "graph/IteratorProto.cfg", name="R2 gen iterator histories with XOf depth %d" % ofdepth,
+        subst=dict(MAXN=3, DEPTH=ofdepth, EMIT="TRUE", WITHOF="TRUE"))
     gen("edgeval", "graph/EdgeValue.tla", "graph/EdgeValue.cfg", name="R2 gen edge value histories depth %d" % edepth,
         subst=dict(MAXN=3, DEPTH=edepth, EMIT="TRUE"))
     ctx.parallel(p1, width=6)
@@ -163,10 +193,31 @@ def run(ctx):
             if quick or thorough:
                 rep(bn, "graph-simple", ("dense", name), ["types=" + ty, "ids=" + ids_json(ids), "absent=%d" % ab],
                     "R2 replay dense " + name)
+        dense = {e[0]: e for e in DENSE}
+        for fam, bind, quick in DENSE_BIND:
+            if quick or thorough:
+                name, ids, d, w, n, ab, selfs, pays, ty, q = dense[fam]
+                a = ["types=" + ty, "ids=" + ids_json(ids), "absent=%d" % ab, "bind=" + bind]
+                rep(bn, "graph-simple", ("dense", name), a, "R2 replay dense %s bind %s" % (name, bind))
+                rep(bn, "graph-simple", ("dense", name), a + ["views=1"], "R2 views dense %s bind %s" % (name, bind))
         for name, ids, lids, d, w, types, quick in MULTI:
             if quick or thorough:
                 rep(bn, "graph-multi", ("multi", name), ["types=" + types, "ids=" + ids_json(ids)], "R2 replay multi " + name)
         rep(bn, "graph-iter", "iter", [], "R2 replay iterator histories")
+        rep(bn, "graph-iter", "iterof", ["of=1"], "R2 replay iterator histories through the XOf helpers")
+        # the wrapper views, once per reachable state
+        for name, ids, d, w, types, quick in SIMPLE:
+            if quick or thorough:
+                for ty in types.split(","):
+                    rep(bn, "graph-simple", ("simple", name), ["types=" + ty, "ids=" + ids_json(ids), "views=1"],
+                        "R2 views simple %s %s" % (name, ty))
+        for name, ids, d, w, n, ab, selfs, pays, ty, quick in DENSE:
+            if quick or thorough:
+                rep(bn, "graph-simple", ("dense", name), ["types=" + ty, "ids=" + ids_json(ids), "absent=%d" % ab, "views=1"],
+                    "R2 views dense " + name)
+        for name, ids, lids, d, w, types, quick in MULTI:
+            if quick or thorough:
+                rep(bn, "graph-multi", ("multi", name), ["types=" + types, "ids=" + ids_json(ids), "views=1"], "R2 views multi " + name)
         rep(bn, "graph-edgeval", "edgeval", [], "R2 replay edge value histories")
         for fam, d in (("dir-map", "TRUE"), ("undir-map", "FALSE")):
             r3(bn, "graph-simple", fam, hist, "graph/GraphSetTrace.tla", "graph/GraphSetTrace.cfg", dict(DIRECTED=d, DENSEN=0), "trace", "trace")
